@@ -164,7 +164,7 @@ func clip(s string) string {
 func (l *leakCtx) checkOp(res OpResult, what string) bool {
 	c := l.c
 	c.Eval(1)
-	c.T(res.brief(), res.Out.String())
+	c.T(res.brief())
 	// secrets of this operation: the returned password and every candidate drawn
 	if res.Pw != nil {
 		l.addSecret(res.Pw.S)
@@ -213,7 +213,7 @@ func (l *leakCtx) checkOp(res OpResult, what string) bool {
 			}
 		}()
 		out := since(m)
-		c.T(out.String(), errText)
+		c.T(errText)
 		c.Count("index_operations_monitored", 1)
 		if !l.scan(out.Stdout, "stdout", "Kind/MakeIndices/Tokenize") || !l.scan(out.Stderr, "stderr", "Kind/MakeIndices/Tokenize") || !l.scan(out.Log, "log", "Kind/MakeIndices/Tokenize") || !l.scan(errText, "error-text", "Kind/MakeIndices/Tokenize") {
 			return false
